@@ -77,11 +77,13 @@ def cases(tier, rng, boost=1):
 def real(case):
     import msmhelper as mh
     rng = core.Rng(hash(str(case['trajs'])) & 0xffff)
-    arg = gen.to_form(case['trajs'], case.get('form', 'list_of_arrays'), rng)
+    def mkarg():
+        return gen.to_form(case['trajs'], case.get('form', 'list_of_arrays'), rng)
     S = case['start'] if len(case['start']) != 1 or rng.random() < 0.5 else case['start'][0]
     F = case['final'] if len(case['final']) != 1 or rng.random() < 0.5 else case['final'][0]
 
     def run():
+        arg = mkarg()
         if case['op'] == 'md_wt':
             return [int(x) for x in mh.md.estimate_waiting_times(arg, S, F)]
         d = mh.md.estimate_paths(arg, S, F)
